@@ -88,6 +88,9 @@ impl<T: Clone + Copy + Number + PartialOrd + Neg<Output = T>> Banded<T> {
         self.compact.fill_col( (self.m1 as isize + band) as usize, value );
     }
 
+}
+
+impl<T: Clone + Copy + Number + PartialOrd + Signed> Banded<T> {
     fn decompose(&self, au: &mut Matrix<T>, al: &mut Matrix<T>, index: &mut Vector<usize>, d: &mut T ) {
         let mm = self.m1 + self.m2 + 1;
         let mut l = self.m1;
@@ -111,7 +114,7 @@ impl<T: Clone + Copy + Number + PartialOrd + Neg<Output = T>> Banded<T> {
             if l < self.n { l += 1; }
             for j in k + 1..l {
                 //if au[ j ][ 0 ] > dum {
-                if au[(j, 0)] > dum {
+                if au[(j, 0)].abs() > dum.abs() {
                     //dum = au[ j ][ 0 ];
                     dum = au[(j, 0)];
                     i = j;
